@@ -82,4 +82,15 @@ CHECKS["C19"] = dict(
     note="Trusts: line-granular pre-emption (no intra-line bytecode races); the scheduler treats a thread that makes no progress for 40 ms as blocked on a lock. Concurrent registration while calling is out of scope (the statement says 'fully defined').",
     ref="5 C19")
 
+CHECKS["C12"] = dict(
+    technique="TLC model check of the laws on the Impl transcription of typeorder (MC_Types over all class DAGs and all unions / intersections of two classes) + the laws evaluated by TLC (Trace_Types) on the full typeorder table recorded from the real library over a universe of types",
+    text="The laws the statement lists (mirror image, reflexivity, coincidence with subclassing, generic below origin and argument-wise, union above / intersection below members, dependent below bound) are TLA+ operators; TLC checks them on the implementation-shaped model of typeorder for classes, unions and intersections over every class DAG of the bound, and on the complete table typeorder(a, b) recorded from the real code for every ordered pair of a universe covering every constructor and depth-2 nestings. The model check found the overlapping-union asymmetry (fixed).",
+    note="Trusts: the table recorder; laws only, no full reference order. Known finding KF-crossfamily-order covers mirror asymmetries between hook-defined types of different families only.",
+    ref="5 C12")
+CHECKS["C13"] = dict(
+    technique="documented meaning Sat of every static type as a TLA+ operator, evaluated by TLC (Trace_Types) against subclasscheck and real dispatch recorded for every class x type of the universe; subtype laws on the recorded subclasscheck table",
+    text="For every static type of the universe (classes incl. ABC registration and multiple inheritance, unions, intersections, Exactly, StrictSubclass, HasMethod and their nestings) and every class, TLC compares subclasscheck(class, T) and the outcome of dispatching {f(x: T), f(x: object)} on an instance with the structural definition Sat; reflexivity, transitivity on the class / generic fragment, agreement with issubclass and argument-wise covariance are checked on the recorded type x type table.",
+    note="Trusts: Sat as written in Trace_Types (union: some arm, intersection: all arms, Exactly: identical, StrictSubclass: proper subclass, HasMethod: attribute present). Deferred classes are exercised separately only through the test-suite (needs an un-imported module).",
+    ref="5 C13")
+
 PENDING_REASON = "check not built yet in this round (planned, see DESIGN section 10)"
